@@ -56,7 +56,7 @@ VALUES = [
     None, True, False, 0, 5, -7, 10**30, -(10**30),
     "", "plain", "it's \"quoted\"\n\t\\", "\x00 é", b"", b"\x00\xffabc'\"",
     complex(1, 2), complex(-0.0, math.inf), complex(NAN, -1.5), complex(0, 0), complex(-2.5, -0.0),
-    Color.RED, Unit.METRE, Level.LOW, Level.HIGH, Perm.R,
+    Color.RED, Unit.METRE, Level.LOW, Level.HIGH, Perm.R, Perm.R | Perm.W, Perm(0), [Perm.W | Perm.R], 10**5000, -(10**5000),
     [], [1, "a", None], (), (1,), (1, 2), ((),), set(), {1}, {"k": [1, (2,)], 3: None}, [(-1,), {2: None}, {Color.GREEN}], [Unit.METRE, 3], (Level.LOW, "x"), {Unit.METRE: Level.HIGH},
     [complex(1, -0.0), [b"x"]],
 ]
@@ -85,7 +85,10 @@ def same(a, b) -> bool:
 
 
 def _short(v):
-    r = repr(v)
+    try:
+        r = repr(v)
+    except ValueError:  # an int with more digits than repr() converts
+        r = f"<int of {v.bit_length()} bits>"
     return r if len(r) <= 40 else r[:24] + ".." + r[-10:]
 
 
@@ -175,6 +178,38 @@ def check(ctx) -> None:
         except Exception as exc:  # noqa: BLE001 - invalid token, renderer raises, or text does not evaluate
             good, why = False, f"{type(exc).__name__}: {str(exc)[:80]}"
         ctx.check("C20.admit", isa, good, f"[admit] {label}: is_assertable admits the value but it cannot be rendered as an equal literal ({why}): the observer records an assertion that fails to render or to hold", what=f"[admit] {label}: admitted and renderable", stmt=f"[admit] {label}")
+
+    # ------------------------------------------------------------------ C20.nameable: what a rendered assertion names must be nameable
+    ctx.rule("C20.nameable", "ABSINT: an isinstance assertion is only recorded for types that can be named in an expression (not for classes defined inside a function); fields whose name is no identifier or a keyword are not followed", floor=6)
+    imp = repo.func(ATO, "RemoteAssertionTraceObserver._is_type_importable")
+    ign = repo.func(ATO, "RemoteAssertionTraceObserver._should_ignore")
+    ctx.analysed(imp)
+    ctx.analysed(ign)
+    import types as _types
+
+    def local_class():
+        class Inner:
+            pass
+
+        return Inner
+
+    Local = local_class()
+    Local.__module__ = "sut"
+    Top = type("Top", (), {"__module__": "sut"})
+    for label, typ, want in (("a class defined inside a function of the module under test", Local, False), ("a top-level class of the module under test", Top, True), ("a builtin type", dict, True), ("a class of another module", _types.SimpleNamespace, False)):
+        try:
+            got = bool(peval.Interp(resolver=resolver, native_types=(type,), consts={"config.configuration.module_name": "sut"}).run_function(imp, [typ], {}, repo.module(ATO)))
+        except (peval.Undecided, peval.Raises) as exc:
+            ctx.undecide("C20.nameable", imp, f"{label}: {exc}")
+            continue
+        ctx.check("C20.nameable", imp, got == want, f"_is_type_importable({typ.__qualname__}) is {got} for {label}: " + ("an isinstance assertion naming `f.<locals>.C` cannot be rendered (CSTValidationError aborts the export)" if got else "the type can be named, the weaker type-name assertion is used without need"), what=f"[importable] {label} -> {want}", stmt=f"[importable] {label}")
+    for field, want in (("count", False), ("my key", True), ("class", True), ("1st", True), ("_private", True), ("dunder__", True), ("naïve", False)):
+        try:
+            got = bool(peval.Interp(resolver=resolver, consts={"ModuleType": _types.ModuleType}, externs={"keyword.iskeyword": __import__("keyword").iskeyword}).run_function(ign, [field, 5], {}, repo.module(ATO)))
+        except (peval.Undecided, peval.Raises) as exc:
+            ctx.undecide("C20.nameable", ign, f"field {field!r}: {exc}")
+            continue
+        ctx.check("C20.nameable", ign, got == want, f"_should_ignore({field!r}, 5) is {got}: " + (f"the assertion source `var_0.{field}` is not an expression (ParserSyntaxError when rendered)" if not got else "a plain public field is not asserted on"), what=f"[field] {field!r} ignored={want}", stmt=f"[field] {field}")
 
     # ------------------------------------------------------------------ C20.detached: the expected value is a deep copy of the live object
     ctx.rule("C20.detached", "every ObjectAssertion the trace observer records holds a deep copy of the observed value (later in-place changes of the live object must not change the expectation)", floor=1)
